@@ -484,7 +484,7 @@ func c15Eval(c *ctx, cs c15Case) {
 }
 
 func runC15(c *ctx) {
-	c.Rule = "exhaustive (lower, upper, count) in [0..6]^3 for the four declaration forms x all 14 item types (lists of literal children, ASCII by characters in quoted and code form, arrays) in several renderings (blanks inside the brackets, random layouts of blanks and line breaks): accepted iff the count lies within the bounds, otherwise an error positioned at the declaration token and no message; plus bounds in {255,256,65535,2^31,2^63-1,2^63,2^64,10^30} with small counts, inverted bounds; ASCII variables: bounds printed back, printed form a fixed point, fills of length {lo-1,lo,hi,hi+1,0,1000} accepted iff within (template from the parser and from the re-parsed print); factory bounds and FillInStringLength for all (lo,hi) in [0..6]x[-1..6]. non-trivial = count within 1 of a bound; distinct by text"
+	c.Rule = "exhaustive (lower, upper, count) in [0..6]^3 for the four declaration forms x all 14 item types (lists of literal children, ASCII by characters in quoted and code form, arrays) in several renderings (blanks inside the brackets, random layouts of blanks and line breaks): accepted iff the count lies within the bounds, otherwise an error positioned at the declaration token and no message; plus bounds in {255,256,65535,2^31,2^63-1,2^63,2^64,10^30} with small counts, inverted bounds; ASCII variables: bounds printed back, printed form a fixed point, fills of length {lo-1,lo,hi,hi+1,0,1000} accepted iff within (template from the parser and from the re-parsed print); factory bounds and FillInStringLength for all (lo,hi) in [0..6]x[-1..6]. non-trivial = count within 1 of a bound; distinct by text Also (rounds 5-8): blanks, tabs, LF, CR and CRLF inside declarations; 2-5 sized items in one message (one line or several, multi-byte message names, equal actual counts): exactly one error at each violated declaration; the template's printed bounds before and after fills through itself and a sibling; the variable inside a repeated group with count and strings in one call."
 	c.Assume = []string{"a size declaration on a list counts children; C15 lists contain no list variable or ellipsis", "for bounds above 2^63-1 only enforcement is checked, not the number reported by FillInStringLength"}
 	c.Exhaust = true
 	forms := []string{"n", "a..b", "a..", "..b"}
